@@ -3,6 +3,7 @@ import SJ.Proofs.Utf8Machine
 import SJ.Proofs.Utf8Value
 import SJ.Proofs.NumFuel
 import SJ.Proofs.Sound.Num
+import SJ.Proofs.StreamDepth
 /-!
 # C14 — hostile input cannot crash, overflow the stack or corrupt memory (the logical part)
 
@@ -293,5 +294,67 @@ example : Model.Num.f64FromPartsLoop 2 (Spec.Ieee.F64.ofU64 1) (-99999) = .outOf
 example : SJ.Proofs.NumLink.PartsWF ⟨false, [0x31], none, some (true, [0x39, 0x39, 0x39, 0x39, 0x39]),
     [0x31, 0x65, 0x2d, 0x39, 0x39, 0x39, 0x39, 0x39]⟩ :=
   SJ.Proofs.NumLinkParser.partsOf_wf ⟨false, [0x31], [], [0x65, 0x2d, 0x39, 0x39, 0x39, 0x39, 0x39]⟩ (by decide)
+
+/-! ## The depth budget is restored between the items of a stream
+
+`Model.StreamDepth` threads the `remaining_depth` counter of the `Deserializer` that a `StreamDeserializer`
+owns through the whole stream, decrementing and incrementing it where `check_recursion!` does, and tests
+the limit on the COUNTER (`historyD`: item, `byte_offset()`, counter after each call of `next()`). -/
+
+open SJ.Model.Stream SJ.Model.StreamDepth SJ.Proofs.StreamDepth in
+/-- **C14 (depth budget restored).** For every configuration, item type, input and number of calls: the stream
+    with the explicit counter yields exactly the items and offsets of the stream model in which every item is
+    parsed from a fresh state (so C12's theorems are about it), and after every call that yields a value the
+    counter is back at its initial 128 — the next item again has 127 levels. It is also back at 128 after an
+    item that fails, except that `RecursionLimitExceeded` itself leaves 127 (the macro returns before its
+    `+= 1`); by then the stream is fused (`c12_fused`), so no item is ever parsed with less than the full
+    budget (`c14_stream_item_budget`). -/
+theorem c14_stream_depth_restored (env : Env) (k : Nat) (bs : Bytes) :
+    (historyD env k (startD bs)).map (fun x => (x.1, x.2.1)) = history env k (start bs) ∧
+    ∀ x ∈ historyD env k (startD bs), counting env = true →
+      match x.1 with
+      | .ok _ => x.2.2 = 128
+      | .err c _ => (c ≠ .RecursionLimitExceeded ∧ x.2.2 = 128) ∨ (c = .RecursionLimitExceeded ∧ x.2.2 = 127)
+      | .none => True := by
+  obtain ⟨h1, h2⟩ := historyD_spec env k (startD bs) (fresh_start env bs)
+  refine ⟨h1, fun x hx hc => ?_⟩
+  cases hit : x.1 with
+  | none => trivial
+  | ok v =>
+    have := h2 x hx (by rw [hit]; intro h; cases h) hc
+    rw [hit] at this
+    exact this
+  | err c i =>
+    have := h2 x hx (by rw [hit]; intro h; cases h) hc
+    rw [hit] at this
+    simp only at this ⊢
+    rcases this with ⟨h3, h4⟩ | ⟨h3, h4⟩
+    · exact .inl ⟨h3, h4⟩
+    · refine .inr ⟨h3, ?_⟩
+      have : Gen.remainingDepthInit = 128 := rfl
+      omega
+
+open SJ.Model.Stream SJ.Model.StreamDepth SJ.Proofs.StreamDepth in
+/-- before every call of `next()` — after any history of calls — the stream has failed (the call returns
+    `None` without parsing), or the counter stands at 128: every item that is parsed gets the full budget -/
+theorem c14_stream_item_budget (env : Env) (k : Nat) (bs : Bytes) :
+    (stateD env k (startD bs)).ss.failed = true ∨ (counting env = true → (stateD env k (startD bs)).depth = 128) :=
+  fresh_stateD env k (startD bs) (fresh_start env bs)
+
+/-- non-vacuity: two items nested 127 deep, separated by a space: both are accepted and the counter is 128
+    after each; 128 opening brackets: `RecursionLimitExceeded`, counter 127, then `None` -/
+def deep (n : Nat) : Bytes := List.replicate n 0x5b ++ List.replicate n 0x5d
+def envD : Env := { cfg := {}, src := .slice, tgt := .value }
+open SJ.Model.Stream SJ.Model.StreamDepth in
+example : (historyD envD 3 (startD (deep 127 ++ [0x20] ++ deep 127))).map (fun x =>
+    ((match x.1 with | .ok _ => 1 | .err _ _ => 2 | .none => 0), x.2.1, x.2.2)) =
+    [(1, 254, 128), (1, 509, 128), (0, 509, 128)] := by decide +kernel
+open SJ.Model.Stream SJ.Model.StreamDepth in
+example : (historyD envD 2 (startD (deep 128))).map (fun x =>
+    ((match x.1 with | .ok _ => 1 | .err .RecursionLimitExceeded _ => 3 | .err _ _ => 2 | .none => 0), x.2.1, x.2.2)) =
+    [(3, 0, 127), (0, 0, 127)] := by decide +kernel
+open SJ.Model.Stream SJ.Model.StreamDepth in
+/-- a failing first item that is not the recursion limit: `[[1,]` leaves 128 (both open arrays unwound) -/
+example : (historyD envD 1 (startD [0x5b, 0x5b, 0x31, 0x2c, 0x5d])).map (fun x => x.2.2) = [128] := by decide +kernel
 
 end SJ.Props.C14
